@@ -110,9 +110,12 @@ def run(ctx):
               b"--- a/f\n+++ b/f\n@@ -1,9223372036854775807 +1,9223372036854775807 @@\n a\n",
               b"--- a/f\n+++ b/f\n@@ -1,3 +1,3 @@\n a\n b\n c\n",            # context only (seeded C11-a)
               b"--- a/f\n+++ b/f\n@@ -4611686018427387904,2 +5,2 @@\n aaa\n-b\n+c\n",
+              b"--- a/f\n+++ b/f\n@@ -1,2 +0,0 @@\n-aaa\n-bbb\n@@ -3 +1 @@\n-ccc\n+CCC\n",   # seeded C11-d: not a deletion
+              b"--- a/f\n+++ b/f\n@@ -0,0 +1 @@\n+top\n@@ -2 +3 @@\n-bbb\n+BBB\n",            # not a creation
               b"", b"\n", b"@@ -1 +1 @@\n", b"--- \n+++ \n@@ -0,0 +1 @@\n+x\n", b"diff --git a b\nGIT binary patch\n"]
     cases = {"corpus": [{"strip": s, "wh": 0, "data": d} for d in corpus for s in (0, 1)]}
     cases["grammar"] = [{"strip": rng.choice([0, 1, 1, 2, 3]), "wh": rng.choice([0, 1]), "data": l2gen.gen_patch(rng)} for _ in range(2500 * k)]
+    cases["context-free-multi-hunk"] = [{"strip": rng.choice([0, 1]), "wh": 0, "data": l2gen.gen_ctxfree_multi(rng)} for _ in range(300 * k)]
     cases["line-soup"] = [{"strip": rng.choice([0, 1]), "wh": rng.choice([0, 1]), "data": l2gen.gen_soup(rng)} for _ in range(2000 * k)]
     fx = l2gen.fixtures()
     cases["mutated-fixtures"] = [{"strip": rng.choice([0, 1]), "wh": 1, "data": l2gen.mutate(rng, rng.choice(fx))} for _ in range(1200 * k)]
@@ -145,7 +148,7 @@ def run(ctx):
         if p.get("kind") == "correspondence-mismatch" and (p["implementation"].startswith("PANIC") or "<no output>" in p["implementation"]):
             p["kind"] = "parser-crashed"
             ctx.violations[ctx.violations.index(v)] = (p, False)
-    sample = [c["data"] for lab in ("corpus", "grammar", "mutated-grammar") for c in cases.get(lab, [])[: (150 if thorough else 40)]]
+    sample = [c["data"] for lab in ("corpus", "context-free-multi-hunk", "grammar", "mutated-grammar") for c in cases.get(lab, [])[: (150 if thorough else 40)]]
     n_tool = tool_runs(ctx, sample, rng)
     n_series = series_runs(ctx, rng, 300 if thorough else 60)
     ctx.coverage["tool_runs"] = n_tool
